@@ -11,7 +11,7 @@ sigpy documents using, ~2e-7 relative); transposition 1e-12.
 import numpy as np
 
 from vf import lops
-from vf.common import Plan, crandn, held, violated, inconclusive, rng_for, nrm, inner, pick
+from vf.common import structured, Plan, crandn, held, violated, inconclusive, rng_for, nrm, inner, pick
 from vf.oracles import interp as O
 
 SPEC = {
@@ -63,8 +63,9 @@ def run_case(case):
     kernel, param, width = case["kernel"], case["param"], case["width"]
     dt = np.dtype(case["dt"])
     coord = lops.make_coord(case["cseed"], pts, grid, case["ccls"])
-    x = crandn(rng, batch + grid, dt)
-    y = crandn(rng, batch + pts, dt)
+    with structured((sum(case["rs"]) // 3) % 9 if sum(case["rs"]) % 2 else 0):
+        x = crandn(rng, batch + grid, dt)
+        y = crandn(rng, batch + pts, dt)
     mag = [1, 1, 1, 1e-10, 1e8][sum(case["rs"]) % 5]      # both functions are homogeneous
     if mag != 1:
         x, y = x * dt.type(mag), y * dt.type(mag)
